@@ -121,6 +121,10 @@ def state_of(fr):
         inf = ut.infer_capture_method(fr.tx, fr.rx)
     except Exception:
         inf = "err"
+    if fr.numtimetraces and inf != "err":
+        cm = fr.capture_method
+        if getattr(cm, "name", str(cm)) != inf:
+            inf = f"{inf}!=Frame.capture_method:{getattr(cm, 'name', cm)}"   # shows up as a disagreement with the model
     w = [int(v) for v in ut.default_timetrace_weights(fr.tx, fr.rx)] if fr.numtimetraces else []
     comp = fr.is_complete_assuming_reciprocity()
     s = ",".join(f"{a}:{b}:{d}" for a, b, d in zip(tx, rx, data)) + "|" + ",".join(map(str, ids_of(fr.probe))) + "|" + inf + "|" + ",".join(map(str, w)) + "|" + ("1" if comp else "0")
